@@ -168,6 +168,10 @@ def generate(seed, tier):
             ops.append(["single", round(rw.uniform(0, 0.5), 5), rw.choice([1, 2, 2, 3]) if rw.random() < 0.15 else rw.randrange(1, min(N, 40 if sim else N) + 1)])
         elif r < 0.88:
             ops.append(["construct2"])
+        elif r < 0.9 and faults:
+            ops.append(["sanitise_fault"])      # the copy made while sanitising fails to allocate, in the next construction
+            ops.append(["construct2"])
+            ops.append(["compute"])
         elif r < 0.92 and world == "numpy":
             ops.append(["alloc_fault", rw.choice([1, 1, 2, 3])])       # the next NumPy-backend segment gather fails with MemoryError
             ops.append(["compute"])
@@ -357,6 +361,16 @@ def execute(sc, out):
     sess = SS.WorldSession(sc["world"])
     noncanon = not (sc["layout"] in ("1d", "2xN") and sc["dtype"] == "f8")
 
+    in_flight = {"modified": False}
+
+    def _probe():
+        if [b[0] for b in _snapshot(bufs)] != [b[0] for b in snap0]:
+            in_flight["modified"] = True
+
+    spy = SC.SpyWindow(cfg["win"], _probe) if (cfg["win"] in SC.WINDOWS and logical.shape[-1] <= 4096) else None
+    if spy is not None:
+        out.count("in_flight_monitor_installed")
+
     def check_buffer(where):
         now = _snapshot(bufs)
         for k, (a, b) in enumerate(zip(snap0, now)):
@@ -402,6 +416,7 @@ def execute(sc, out):
 
         ans = []
         pending_fault = None
+        pending_sanitise_fault = False
         for op in sc["ops"]:
             kind = op[0]
             out.sim_steps += 1
@@ -436,6 +451,9 @@ def execute(sc, out):
                             out.nontrivial = True
                         ans = []            # analyzers built on the clean content describe the old content
                         continue
+                    if kind == "sanitise_fault":
+                        pending_sanitise_fault = True      # armed only around the library's next construction
+                        continue
                     if kind == "alloc_fault":
                         pending_fault = op[1]        # armed only around the library's own next compute / single-bin call
                         out.count("alloc_fault_armed")
@@ -449,7 +467,17 @@ def execute(sc, out):
                         del decoy
                         continue
                     if kind in ("construct", "construct2"):
-                        ans.append(SC.build_analyzer(obj, cfg))
+                        from dsim import parfor as _pf
+
+                        if pending_sanitise_fault and _pf.LIBRARY_NUMPY is not None:
+                            _pf.LIBRARY_NUMPY.arm_fault("nan_to_num", 1)
+                            out.count("sanitise_alloc_fault_armed")
+                        pending_sanitise_fault = False
+                        try:
+                            ans.append(SC.build_analyzer(obj, cfg, spy))
+                        finally:
+                            if _pf.LIBRARY_NUMPY is not None:
+                                _pf.LIBRARY_NUMPY.disarm_faults()
                         where = "after constructing the analyzer"
                     elif not ans:
                         continue
@@ -511,6 +539,10 @@ def execute(sc, out):
                 out.violate("exception", f"op={kind} layout={sc['layout']} dtype={sc['dtype']}", f"{kind} raised {type(e).__name__}: {str(e)[:200]} (the canonical layout computes fine)")
                 where = f"after failing {kind}"
             afault.disarm()
+            if in_flight["modified"]:
+                out.violate("caller_buffer_modified_in_flight", f"layout={sc['layout']} dtype={sc['dtype']}",
+                            f"during {kind}: the caller's buffer had other bytes while the library was calling the user's window function")
+                break
             if not check_buffer(where):
                 break
     sess.absorb(out)
